@@ -23,6 +23,8 @@ pub const TEXTS: &[&str] = &[
     "\u{18}", "\u{1a}", "\u{9b}", " ", "\u{feff}", "\u{2500}\u{2502}",
     // a narrow symbol + variation selector 16 (one cell whose STRING is reported double-width), ZWJ, conjoining jamo, regional indicators
     "\u{263a}\u{fe0f}z", "\u{2764}\u{fe0f}", "a\u{200d}b", "\u{1100}\u{1161}\u{11a8}", "\u{1f1e9}\u{1f1ea}", "\u{e01}\u{e33}",
+    // the last code point the charset tables translate and the first they do not
+    "\u{ff}\u{100}", "\u{100}", "\u{fe}\u{ff}\u{101}",
 ];
 pub const SGRS: &[&[u32]] = &[&[0], &[1], &[31], &[7], &[4, 42], &[38, 5, 196], &[48, 2, 1, 2, 3], &[1, 3, 4, 5, 7, 9, 95, 104], &[27], &[39, 49]];
 
@@ -198,7 +200,7 @@ pub fn unused() { let _ = (DECAWM, DECCOLM, DECSCNM, DECTCEM, fork); }
 
 /// One token of the recogniser's grammar: mostly well-formed, sometimes aborted / skipped / truncated.
 pub fn gen_token(rng: &mut Rng) -> String {
-    let num = |r: &mut Rng| -> String { match r.below(8) { 0 => String::new(), 1 => "0".into(), 2 => "00005".into(), 3 => format!("{}", r.below(10000)), 4 => "99999999999999999999999".into(), _ => format!("{}", r.below(30)) } };
+    let num = |r: &mut Rng| -> String { match r.below(8) { 0 => String::new(), 1 => "0".into(), 2 => "00005".into(), 3 => format!("{}", r.below(10000)), 4 => "99999999999999999999999".into(), 5 => (*r.pick(&["4294967296", "4294967297", "4294967301", "4294967295", "8589934594", "2147483648", "65536", "65537", "256", "18446744073709551615", "18446744073709551616", "18446744073709551617", "36893488147419103233", "00004294967298"])).to_string(), _ => format!("{}", r.below(30)) } };
     let params = |r: &mut Rng| -> String { let n = r.below(4); let mut t = String::new(); for i in 0..n { if i > 0 { t.push(';'); } t.push_str(&num(r)); } if r.chance(1, 8) { t.push(';'); } t };
     let intro = |r: &mut Rng| -> &'static str { if r.chance(3, 4) { "\u{1b}[" } else { "\u{9b}" } };
     let finals = ['@', 'A', 'B', 'C', 'D', 'E', 'F', 'G', 'H', 'J', 'K', 'L', 'M', 'P', 'X', 'a', 'c', 'd', 'e', 'f', 'g', 'h', 'l', 'm', 'r', 'h', 'l', 'm', 'H', 'z', 'p', 'q', 'n'];
@@ -216,7 +218,7 @@ pub fn gen_token(rng: &mut Rng) -> String {
         12 => { let q = if rng.chance(1, 2) { "?" } else { "" }; format!("{}{}{}{}", intro(rng), q, params(rng), rng.pick(&['\u{18}', '\u{1a}'])) }
         13 => { let q = if rng.chance(1, 2) { "?" } else { "" }; format!("{}{}{}${}", intro(rng), q, params(rng), rng.pick(&['p', 'x', 'm', 'h', '\r'])) }
         14 | 15 => { let pl: String = (0..rng.below(5)).map(|_| *rng.pick(&["a", ";", "\\", " ", "\u{e9}", "\u{3042}", "\u{1b}x", "\r\n", "\n", "0"])).collect();
-            format!("{}{}{}{}{}", rng.pick(&["\u{1b}]", "\u{9d}"]), rng.pick(&["0", "1", "2", "4", "R", "P1234567", "l"]), rng.pick(&[";", ";", ""]), pl, rng.pick(&["\u{7}", "\u{9c}", "\u{1b}\\"])) }
+            format!("{}{}{}{}{}", rng.pick(&["\u{1b}]", "\u{9d}"]), rng.pick(&["0", "1", "2", "4", "R", "P1234567", "l", "\u{430}", "\u{132}", "\u{ff11}"]), rng.pick(&[";", ";", ""]), pl, rng.pick(&["\u{7}", "\u{9c}", "\u{1b}\\"])) }
         16 => rng.pick(&["\u{1b}", "\u{1b}[", "\u{1b}[1;", "\u{1b}[?", "\u{1b}]0;ab", "\u{1b}(", "\u{1b}#", "\u{9b}12", "\u{1b}]"]).to_string(),
         _ => { let (m, p) = gen_modes(rng); format!("{}{}{}{}", intro(rng), if p { "?" } else { "" }, m.iter().map(|x| x.to_string()).collect::<Vec<_>>().join(";"), if rng.chance(1, 2) { 'h' } else { 'l' }) }
     }
